@@ -77,7 +77,8 @@ def handleSim (fs : List (String × String)) : String := Id.run do
   let some probeMs := getNat fs "probems" | return "PARSE probems"
   let some suspMaxMs := getNat fs "suspmaxms" | return "PARSE suspmax"
   let res := (splitNE (getD fs "res" "-") ",").filter (· != "-")
-  let mut bad : Option String := none
+  let inv := getD fs "inv" "ok"
+  let mut bad : Option String := if inv == "ok" || inv == "enc" then none else some s!"cluster-invariant:{inv}"
   let mut worstRatio := 0
   for r in res do
     let [s, cn, latS, leaveS, scoreS] := r.splitOn ":" | return s!"PARSE res:{r}"
